@@ -100,8 +100,9 @@ TLoopEv ==
      /\ carry' = IF E.arm = "publish.err" THEN {} ELSE carry
      /\ UNCHANGED <<lastState, closedObs, mustAck, acked>>
   \/ /\ IsEv("loop", "pub.send") /\ lpc = "p.send" /\ Confirm("loop")
-     /\ carry' = AckSet(E.acks)
-     /\ \A x \in AckSet(E.acks) \cap acked : PrintT("ACKTWICE " \o ToString(l) \o " " \o ToString(x[1]) \o " " \o ToString(x[2]))
+     \* acknowledgements of notifications received before a server restart are stale, not counted
+     /\ carry' = AckSet(E.acks) \cap mustAck
+     /\ \A x \in (AckSet(E.acks) \cap mustAck) \cap acked : PrintT("ACKTWICE " \o ToString(l) \o " " \o ToString(x[1]) \o " " \o ToString(x[2]))
      /\ \A x \in (mustAck \ acked) \ AckSet(E.acks) : PrintT("ACKMISSING " \o ToString(l) \o " " \o ToString(x[1]) \o " " \o ToString(x[2]))
      /\ UNCHANGED <<lastState, closedObs, mustAck, acked>>
   \/ /\ IsEv("loop", "pub.lock") /\ lpc = "p.lock" /\ Confirm("loop")
